@@ -50,7 +50,6 @@ SequenceReset -/
         (isGapFill m = true → n = c.sess.nextIn ∧ n < nw) ∧ c1.sess.nextIn = nw)) ∧
   (m.mtype = mSequenceReset →
       c1.sess.nextIn = c.sess.nextIn ∨
-      (isGapFill m = false ∧ seqOf m = some c1.sess.nextIn ∧ ∀ nw, newSeqOf m = some nw → nw ≤ 0) ∨
       (∃ n nw, seqOf m = some n ∧ newSeqOf m = some nw ∧
         (isGapFill m = true → n = c.sess.nextIn ∧ n < nw) ∧ c1.sess.nextIn = nw))
 
